@@ -1029,29 +1029,32 @@ func ruleRekeyGuards(c *Ctx, rule string) {
 	if fn == nil {
 		return
 	}
-	keyEq := guardEdges(fn, predEq(func(v ssa.Value) bool { return isFieldLoadNamed(v, "Key") },
-		func(v ssa.Value) bool { return sameParam(v, pAt(fn, 1)) }))
-	routable := guardEdges(fn, predCall("sets.String).Has", func(call *ssa.Call) bool {
-		return pathEndsWith(call.Call.Args[0], "pool", "nodeSubnets") &&
-			dependsOn(call.Call.Args[1], func(v ssa.Value) bool { return sameParam(v, pAt(fn, 3)) })
-	}))
 	n := 0
-	allInstrs(fn, func(in ssa.Instruction) {
-		ph, ok := in.(*ssa.Phi)
-		if !ok || typeNameOf(ph.Type()) != "FloatingIP" {
-			return
-		}
-		for i, e := range ph.Edges {
-			if mapFieldOf(e) == "" {
-				continue // nil, or another phi
+	// the search for the candidate may live in a helper (latest entry of the key in the subnet): judge it where it is
+	for _, host := range append([]*ssa.Function{fn}, helperFns(fn, 1)...) {
+		keyEq := guardEdges(host, predEq(func(v ssa.Value) bool { return isFieldLoadNamed(v, "Key") },
+			func(v ssa.Value) bool { return sameParam(throughParams(v), pAt(fn, 1)) }))
+		routable := guardEdges(host, predCall("sets.String).Has", func(call *ssa.Call) bool {
+			return pathEndsWith(call.Call.Args[0], "pool", "nodeSubnets") &&
+				dependsOn(call.Call.Args[1], func(v ssa.Value) bool { return sameParam(v, pAt(fn, 3)) })
+		}))
+		allInstrs(host, func(in ssa.Instruction) {
+			ph, ok := in.(*ssa.Phi)
+			if !ok || typeNameOf(ph.Type()) != "FloatingIP" {
+				return
 			}
-			n++
-			pred := ph.Block().Preds[i]
-			at := pred.Instrs[0]
-			c.ob(rule, fn, "candidate has the old key", at, mapFieldOf(e) == "allocatedFIPs" && guardedBy(fn, at, keyEq), "the assignment of the candidate is reachable only through the true edge of v.Key == oldK (v read from allocatedFIPs)")
-			c.ob(rule, fn, "candidate is routable from the subnet", at, guardedBy(fn, at, routable), "the assignment of the candidate is reachable only through the true edge of v.pool.nodeSubnets.Has(subnet)")
-		}
-	})
+			for i, e := range ph.Edges {
+				if mapFieldOf(e) == "" {
+					continue // nil, or another phi
+				}
+				n++
+				pred := ph.Block().Preds[i]
+				at := pred.Instrs[0]
+				c.ob(rule, fn, "candidate has the old key", at, mapFieldOf(e) == "allocatedFIPs" && guardedBy(host, at, keyEq), "the assignment of the candidate is reachable only through the true edge of v.Key == oldK (v read from allocatedFIPs)")
+				c.ob(rule, fn, "candidate is routable from the subnet", at, guardedBy(host, at, routable), "the assignment of the candidate is reachable only through the true edge of v.pool.nodeSubnets.Has(subnet)")
+			}
+		})
+	}
 	if n == 0 {
 		c.undecided(rule, fn, "candidate selection", nil, "no assignment of a table entry to the candidate variable found")
 	}
